@@ -45,6 +45,13 @@ ATTR_HEAVY = [
 ]
 
 
+# style attributes with blank pairs and verbatim repeats (on elements whose attribute order reaches the output: stops, text, root)
+STYLE_DOCS = [
+    '<svg xmlns="http://www.w3.org/2000/svg" viewBox="0 0 100 100" style="fill:navy;;stroke:none;;fill-opacity:.9;"><defs><linearGradient id="g" x2="1"><stop offset="0" style="stop-color:#f00;;stop-opacity:.5;;"/>'
+    '<stop offset="1" style="stop-opacity:.25;stop-color:#00f;stop-opacity:.25"/></linearGradient></defs><rect x="5" y="5" width="50" height="40" style="fill:url(#g);;opacity:.5;;"/>'
+    '<rect x="30" y="50" width="40" height="30" style="fill:red;fill:blue;fill:red;stroke:none;;"/><circle cx="70" cy="30" r="12" style="opacity:.5;fill:lime;opacity:.5"/></svg>',
+]
+
 TEXT_DOCS = [
     '<svg xmlns="http://www.w3.org/2000/svg" viewBox="0 0 100 100" fill="red" stroke="blue" stroke-width="2" fill-opacity=".5" stroke-linejoin="round" stroke-miterlimit="3" clip-rule="evenodd" fill-rule="evenodd">'
     '<g fill="green" stroke-linecap="round" stroke-opacity=".25" style="stroke-dasharray:3 1;stroke-dashoffset:2"><text x="5" y="20" opacity=".5">hi <tspan dy="5" fill="black">there</tspan></text>'
@@ -89,6 +96,7 @@ def corpus(tier):
     for k in ["gop:rect+circle", "gop:stroked+lingrad", "gxf:rect+lingrad", "gclip:circle+lingrad", "gfill:rect+stroked", "gopxf:lingrad+circle"]:
         docs.append(G.document([k], "fill"))
     docs += ATTR_HEAVY
+    docs += STYLE_DOCS
     from mc.props import c06
 
     for k in (("linear", "numbers", "userSpaceOnUse", "rotate", "pad", "attrs", "none", "rect", "none"), ("radial", "numbers", "objectBoundingBox", "none", "reflect", "chain3own", "fxfy", "circle", "translate"),
@@ -122,6 +130,7 @@ def corpus(tier):
             seen.add(d)
             out.append([d, {}])
     # the options are part of the function's input: text pass-through and dropping of unsupported elements
+    out.append(['<svg xmlns="http://www.w3.org/2000/svg" viewBox="0 0 100 100"><g style="fill:red;;stroke:blue;;stroke-width:2;;"><text x="5" y="20" style="opacity:.5;font-size:10px;opacity:.5;;fill:green;">hi<tspan style="fill:black;;fill-opacity:.5;;">x</tspan></text><rect x="1" y="30" width="9" height="9"/></g></svg>', {"allow_text": True}])
     for d in TEXT_DOCS:
         out.append([d, {"allow_text": True}])
         out.append([d, {"allow_text": True, "drop_unsupported": True}])
